@@ -59,6 +59,7 @@ package mod
 //@   ensures readonly: imp(c.common.S3Options.ReadOnly || c.common.Tree.Root.readonly, puts == old(puts) && deletes == old(deletes))
 //@   ensures failure-keeps-snapshot: imp(result != nil, c.common.txStart == old(c.common.txStart) && deletes == old(deletes))
 //@   ensures success: imp(result == nil && !c.common.S3Options.ReadOnly, c.common.txStart == nil)
+//@   ensures acknowledged-means-published: imp(result == nil && !c.common.S3Options.ReadOnly && !old(noop(c.common.Tree.Root)), c.common.Tree.Root.crdt.Source != nil && !c.common.Tree.Root.tombstoned && len(c.common.Tree.Root.crdt.MergeSources) == 1 && puts > old(puts))
 
 //@ func toSqlite
 //@   modifies nothing
@@ -186,10 +187,14 @@ package mod
 //@ func (*ConnCursor).Column
 //@   requires vc != nil && vc.vm != nil && vc.vm.sc != nil && context != nil && context.Context != nil
 //@   modifies gf(context.Context.ptr, "resKind"), gfs(context.Context.ptr, "resText")
-//@   ensures deadline-null: imp(i == 0 && zeroT(vc.vm.sc.deadline), gf(context.Context.ptr, "resKind") == 5)
-//@   ensures write-time-null: imp(i == 1 && zeroT(vc.vm.sc.writeTime), gf(context.Context.ptr, "resKind") == 5)
-//@   ensures deadline-text: imp(i == 0 && !zeroT(vc.vm.sc.deadline), gfs(context.Context.ptr, "resText") == time_format(vc.vm.sc.deadline, s3db.SQLiteTimeFormat))
-//@   ensures write-time-text: imp(i == 1 && !zeroT(vc.vm.sc.writeTime), gfs(context.Context.ptr, "resText") == time_format(vc.vm.sc.writeTime, s3db.SQLiteTimeFormat))
+// xColumn during an UPDATE: for an attribute the statement does not assign no
+// result may be set (sqlite3_vtab_nochange), so that it reaches Update flagged
+// no-change — otherwise every UPDATE of s3db_conn re-assigns BOTH attributes
+//@   ensures nochange: imp(ctxNoChange(context), result == nil && gf(context.Context.ptr, "resKind") == old(gf(context.Context.ptr, "resKind")))
+//@   ensures deadline-null: imp(!ctxNoChange(context) && i == 0 && zeroT(vc.vm.sc.deadline), gf(context.Context.ptr, "resKind") == 5)
+//@   ensures write-time-null: imp(!ctxNoChange(context) && i == 1 && zeroT(vc.vm.sc.writeTime), gf(context.Context.ptr, "resKind") == 5)
+//@   ensures deadline-text: imp(!ctxNoChange(context) && i == 0 && !zeroT(vc.vm.sc.deadline), gfs(context.Context.ptr, "resText") == time_format(vc.vm.sc.deadline, s3db.SQLiteTimeFormat))
+//@   ensures write-time-text: imp(!ctxNoChange(context) && i == 1 && !zeroT(vc.vm.sc.writeTime), gfs(context.Context.ptr, "resText") == time_format(vc.vm.sc.writeTime, s3db.SQLiteTimeFormat))
 //@ ufunc time_format(t, l) string
 
 // ---------------------------------------------------------------------------
@@ -211,6 +216,7 @@ package mod
 //@     (chNew(d, i) == nil || (typeis(chNew(d, i), *v1proto.Row) && chNew(d, i).(*v1proto.Row) != nil)))
 
 //@ func (*ChangesCursor).Next
+//@   tolerates call:kv.(*DiffCursor).NextEntry   // mast.ErrNoMoreDiffs is the end-of-sequence marker, not a failure; every other error is returned (post@failed-step-is-an-error)
 //@   requires c != nil && imp(!c.eof, c.diffCursor != nil && c.diffCursor.DiffCursor != nil && c.module != nil && c.module.sc != nil)
 //@   requires forall i int :: imp(!c.eof, chShape(chSnap(c), i))
 //@   requires imp(!c.eof, 0 <= chPos(c) && chPos(c) <= dN(chSnap(c)))
@@ -293,6 +299,7 @@ package mod
 // s3db.Vacuum; on a read-only table nothing is written (C13).
 //@ spec vacName(values []sqlite.Value) string = valText(values[0])
 //@ func (*VacuumCursor).Filter
+//@   tolerates call:s3db.Vacuum   // the outcome of the vacuum is the ROW this table function returns (column vacuum_error), by design
 //@   requires vc != nil && vc.module != nil && vc.module.sc != nil && vc.module.sc.ctx != nil
 //@   requires forall k string :: imp(has(s3db.tables, k) && s3db.tables[k] != nil, vtOK(s3db.tables[k]))
 //@   requires forall k string, i int :: imp(has(s3db.tables, k) && s3db.tables[k] != nil, vacShape(*s3db.tables[k].Tree.Root.crdt.Mast, i))
